@@ -156,9 +156,9 @@ func genCtorRouterInfo(g *G, rich bool) {
 			g.emit("!ctorRouterInfo", "7", "4", g.seed(), itoa(pub), itoa(na), "-", "ok")
 		}
 	}
-	n := g.n(60, 400)
+	n := g.n(60, 4000)
 	if !rich {
-		n = g.n(5, 50)
+		n = g.n(5, 400)
 	}
 	for i := 0; i < n; i++ {
 		g.emit("!ctorRouterInfo", "7", itoa(r.pick(4, 0)), g.seed(), itoa(int(r.next()>>uint(r.rng(12, 40)))), itoa(r.pick(0, 1, 1, 2, 3, 5, 17)), assocArg(g.genPairs(r.rng(0, 8))), "ok")
@@ -196,7 +196,7 @@ func genCtorLeaseSet(g *G, rich bool) {
 			g.emit("!ctorLeaseSet", itoa(id.sig), id.kind, g.seed(), itoa(n), "ok")
 		}
 	}
-	for i := 0; i < g.n(30, 300); i++ {
+	for i := 0; i < g.n(30, 3000); i++ {
 		id := ids[g.R.intn(4)]
 		g.emit("!ctorLeaseSet", itoa(id.sig), id.kind, g.seed(), itoa(g.R.rng(0, 16)), "ok")
 	}
@@ -245,6 +245,17 @@ func genCtorLeaseSet2(g *G, rich bool) {
 	}
 	for _, o := range g.optionShapes(rich) {
 		g.emit("!ctorLeaseSet2", "7", "4", g.seed(), "1700000000", "600", "0", "-", o, "4:32", "1", "ok")
+	}
+	// thorough tier: random walks over every argument of the valid region
+	for k := 0; k < g.n(0, 2500); k++ {
+		sig := r.pick(7, 7, 11, 1)
+		off, fl := "-", r.pick(0, 2, 4, 6)
+		if (sig == 7 || sig == 11) && r.coin(0.4) {
+			off, fl = offs[1+r.intn(len(offs)-1)], fl|1
+		}
+		opts := g.optionShapes(rich)
+		g.emit("!ctorLeaseSet2", itoa(sig), itoa(r.pick(0, 4)), g.seed(), itoa(int(uint32(r.next()))), itoa(r.rng(0, 65535)),
+			itoa(fl), off, opts[r.intn(len(opts))], keySpecs[r.intn(len(keySpecs))], itoa(r.rng(1, 16)), "ok")
 	}
 	g.emit("!ctorLeaseSet2", "7", "4", g.seed(), "1700000000", "600", "0", "-", "-", "4:32", "0", "ok") // zero leases: the constructor's own rule
 	// the forms of the signing-key argument (interface{}): private key object (above), Signer, nil, anything else
@@ -305,6 +316,14 @@ func genCtorELS(g *G, rich bool) {
 			}
 		}
 	}
+	for k := 0; k < g.n(0, 2500); k++ {
+		off, fl := "-", r.pick(0, 2)
+		if r.coin(0.4) {
+			off, fl = r.pickS("7", "11", "2", "0"), fl|1
+		}
+		g.emit("!ctorEncryptedLeaseSet", itoa(r.pick(7, 11)), g.seed(), itoa(int(uint32(r.next()))), itoa(r.rng(1, 65535)),
+			itoa(fl), off, itoa(r.pick(61, 62, r.rng(61, 300), r.rng(61, 65535))), forms[r.intn(4)], "ok")
+	}
 	// transient keys of a non-Ed25519 type: NewEncryptedLeaseSet signs with Ed25519 keys only
 	g.emit("!ctorEncryptedLeaseSet", "7", g.seed(), "1700000000", "600", "1", "1", "61", "std", "ok")
 }
@@ -346,7 +365,7 @@ func genCtorOffline(g *G, rich bool) {
 		}
 	}
 	if rich {
-		for i := 0; i < g.n(90, 400); i++ {
+		for i := 0; i < g.n(90, 4000); i++ {
 			g.emit("!ctorOfflineSig", itoa(r.pick(7, 11)), itoa(r.pick(7, 11, 1, 2, 8)), g.seed(), itoa(int(uint32(r.next())|1)), "ok")
 		}
 	}
